@@ -15,9 +15,9 @@ if [ "$MODE" = verify ]; then
   [ -z "$DEMODIR" ] && DEMODIR=vm
   cp $D/demo_test.go $WT/$DEMODIR/zz_seed_demo_test.go
   (cd $WT && go build ./... ) || echo "VERIFY $D: build FAILED"
-  (cd $WT && timeout 600 go test -vet=off -count=1 -run 'TestSeeded|TestDemo' ./$DEMODIR/ > /tmp/seed-with.log 2>&1); W=$?
+  (cd $WT && timeout 600 go test -vet=off -count=1 -run 'TestSeed|TestDemo' ./$DEMODIR/ > /tmp/seed-with.log 2>&1); W=$?
   (cd $WT && git apply -R $D/patch.diff)
-  (cd $WT && timeout 600 go test -vet=off -count=1 -run 'TestSeeded|TestDemo' ./$DEMODIR/ > /tmp/seed-without.log 2>&1); WO=$?
+  (cd $WT && timeout 600 go test -vet=off -count=1 -run 'TestSeed|TestDemo' ./$DEMODIR/ > /tmp/seed-without.log 2>&1); WO=$?
   (cd $WT && rm $DEMODIR/zz_seed_demo_test.go && git apply $D/patch.diff && timeout 1500 go test -vet=off -count=1 ./... > /tmp/seed-suite.log 2>&1); S=$?
   echo "VERIFY $D: demo-with-change exit=$W (want !=0)  demo-without exit=$WO (want 0)  suite-with-change exit=$S (want 0)  demo_dir=$DEMODIR"
   git -C /repo worktree remove --force $WT
